@@ -147,7 +147,7 @@ from typing import Any, TypeAlias
 from ...ast.fpyast import *
 from ...ast.visitor import Visitor
 from ...function import Function
-from ...number import INTEGER, REAL, RM, Context, Float, RealFloat
+from ...number import INTEGER, OV, REAL, RM, Context, Float, RealFloat
 from ...number.format import REAL_FORMAT, Format
 from ...types import (
     BoolType,
@@ -1864,9 +1864,18 @@ class _FormatInferInstance(Visitor):
         # rounds to 1), we fall back to C's bounds.
         # ``int | float`` comparison works directly with the
         # ``float('inf')`` sentinel used for unbounded prec.
+        #
+        # A scope that wraps on overflow does not clip either: a value past
+        # one bound comes back from the other (145 under SINT8 is -111), so
+        # once *exact* leaves the scope's range the image may be anywhere
+        # in it.
         prec = min(exact.prec, scope_af.prec)
         exp = max(exact.exp, scope_af.exp)
-        if exact.prec > scope_af.prec or exact.exp < scope_af.exp:
+        wraps = getattr(resolved, 'overflow', None) is OV.WRAP and (
+            exact.pos_bound > scope_af.pos_bound
+            or exact.neg_bound < scope_af.neg_bound
+        )
+        if exact.prec > scope_af.prec or exact.exp < scope_af.exp or wraps:
             pos_bound = scope_af.pos_bound
             neg_bound = scope_af.neg_bound
         else:
